@@ -570,6 +570,23 @@ def eval_load(case):
     try:
         new.loads(bad)
     except Exception:
+        if case["load"] == "raises":
+            # refused as text: it is refused as a file and as an open file object, too (the other spellings of the reader)
+            import io
+            import tempfile
+            fd, pth = tempfile.mkstemp(prefix="verif-c07-")
+            try:
+                with os.fdopen(fd, "w") as fh:
+                    fh.write(bad)
+                for how, src in (("load(path)", lambda: pth), ("load(file object)", lambda: io.StringIO(bad))):
+                    o2 = type(obj)()
+                    try:
+                        o2.load(src())
+                        return ["%s: rejected by loads(text) but accepted by %s" % (what, how)]
+                    except Exception:
+                        pass
+            finally:
+                os.unlink(pth)
         return _reused(obj, text, bad, what) if case["load"] == "raises" else []
     if case["load"] == "raises":
         return ["%s: loads() returned an object instead of rejecting the document" % what]
